@@ -266,10 +266,10 @@ def gen_cases(ctx, thorough):
     rng = ctx.rng
     plan = []
     for kind in ("pos", "cplx", "dm"):
-        nmax = 4 if (thorough and kind != "dm") else 3
-        reps = 6 if thorough else 2
+        nmax = 4 if thorough else 3
+        reps = 24 if thorough else 2
         for n in range(1, nmax + 1):
-            for _ in range(reps):
+            for _ in range(reps if not (kind == "dm" and n == 4) else 4):
                 h = rng.choice([x for x in (1, 2, 3) if x != n] or [2])
                 a = rng.choice([1, 2, 3])
                 scale = rng.choice([0.3, 0.7, 1.2])
